@@ -359,5 +359,5 @@ Definition busy_call : call :=
 
 Example busy_ok : well_bracketed repaired = true /\ no_indent busy_hist = true /\
   result repaired (run repaired busy_hist G0) busy_call =
-    [([ONone; OTok None; OTok None; OFlag false; OSer 3 4 0 None; ODx true], TRet)].
+    [([ONone; OTok None; OTok None; OFlag false; OSer 3 4 0 0 None; ODx true], TRet)].
 Proof. vm_compute. repeat split. Qed.
